@@ -74,9 +74,16 @@ def coq_audit():
                 while prev != txt:
                     prev = txt
                     txt = re.sub(r"\(\*[^*(]*(?:(?:\*(?!\))|\((?!\*))[^*(]*)*\*\)", " ", txt)
+                depth = 0       # Section / Module Type nesting: a Variable / Hypothesis / Context outside a Section declares an axiom
                 for i, line in enumerate(txt.splitlines(), 1):
                     if re.search(FORBIDDEN, line):
                         bad.append("%s:%d: %s" % (os.path.relpath(p, VERIF), i, line.strip()))
+                    if re.match(r"\s*Section\s+\w+\s*\.", line):
+                        depth += 1
+                    elif re.match(r"\s*End\s+\w+\s*\.", line) and depth > 0:
+                        depth -= 1
+                    elif depth == 0 and re.match(r"\s*(Variables?|Hypothes[ie]s|Context)\b", line):
+                        bad.append("%s:%d: outside a Section: %s" % (os.path.relpath(p, VERIF), i, line.strip()))
     return bad
 
 
